@@ -71,17 +71,26 @@ def cacheacc_cases(ctx):
             for (tt, oid) in sc:
                 a.accumulate(('o', oid))
             reads.append(([v[1] for v in a.value], a.n))
+            # the merged-in cache keeps living its own life: more observations into it must not show up in the receiver
+            for (tt, oid) in sd:
+                b.accumulate(('o', oid))
+            reads.append(([v[1] for v in a.value], a.n))
+            reads.append(([v[1] for v in b.value], b.n))
             return reads
         sc = []
         for _ in range(rng.choice([0, 1, 2, 5])):
             t += rng.choice([1, 2])
             sc.append((t, next(ids)))
-        readings = [x[0] for x in sorted(sa + sb, key=lambda p: p[1])] + [x[0] for x in sc]
+        sd = []
+        for _ in range(rng.choice([0, 1, 2, 4])):
+            t += rng.choice([1, 2])
+            sd.append((t, next(ids)))
+        readings = [x[0] for x in sorted(sa + sb, key=lambda p: p[1])] + [x[0] for x in sc] + [x[0] for x in sd]
         reads, clk = with_clock(readings, run)
         case = dict(kind='CacheAccumulator', L=L, a=sa, b=sb)
         ctx.case(('acc', L, sa, sb), na > 0 and nb > 0, sample=case if na + nb <= 8 else None)
         ctx.count('cacheacc')
-        (va, ca), (vb, cb), (vm, cm), (vb2, cb2), (vc, cc) = reads
+        (va, ca), (vb, cb), (vm, cm), (vb2, cb2), (vc, cc), (vc2, cc2), (vd, cd) = reads
         if va != [x[1] for x in sa][-min(na, L):] if na else va != []:
             ctx.fail('cacheacc-not-last-k', 'value %s, the last %d of %s are %s' % (va, L, [x[1] for x in sa], [x[1] for x in sa][-L:]), case)
         if (ca, cb) != (na, nb):
@@ -99,6 +108,11 @@ def cacheacc_cases(ctx):
         wantc = ([m[3] for m in full] + [p[1] for p in sc])[-L:] if (full or sc) else []
         if vc != wantc or cc != na + nb + len(sc):
             ctx.fail('cacheacc-after-merge-wrong', 'after a merge and %d further observations the cache holds %s (n=%s), expected %s' % (len(sc), vc, cc, wantc), case)
+        if (vc2, cc2) != (vc, cc):
+            ctx.fail('merge-aliases-other:CacheAccumulator', 'observations given to the merged-in cache after the merge changed the receiver: %s -> %s' % (vc, vc2), case)
+        wantd = ([x[1] for x in sb] + [x[1] for x in sd])[-L:] if (sb or sd) else []
+        if vd != wantd or cd != nb + len(sd):
+            ctx.fail('cacheacc-donor-wrong-after-merge', 'the merged-in cache holds %s (n=%s) after %d further observations, expected %s' % (vd, cd, len(sd), wantd), case)
         lines.append('cache.acc %d | %s' % (L, ' '.join('%d:%d' % p for p in sa)))
         lines.append('cache.accmerge %d | %s | %s | %s' % (L, ' '.join('%d:%d' % p for p in sa), ' '.join('%d:%d' % p for p in sb),
                                                        ' '.join('%d:%d' % p for p in sc)))
